@@ -584,6 +584,15 @@ def run(tier, seed, replay):
     v.add_tlc("OAuthFlow_mc.cfg (design invariants, all variant sets)", res)
     if not res.ok:
         raise vlib.MachineryError("OAuthFlow violates its own invariant %s: the model is broken" % res.violation)
+    # 1a. unbounded in the length of behaviours: Apalache discharges the inductive invariant OAuthFlow!IndInv (the nine design
+    # invariants of OAuthFlow_mc.cfg + what every step has established when the program counter is where it is) for the full
+    # variant sets of the module.  Base 23 s + step 137 s under load: thorough tier and only on request
+    # (VERIF_APALACHE_SLOW=1); never in replay mode.  Last run 2026-09-25: proved, 137.5 s.
+    if tier != "quick" and not replay and os.environ.get("VERIF_APALACHE_SLOW"):
+        ra = vlib.run_apalache_inductive("OAuthFlow", "CInit", "IndInit", "IndInv", timeout=1200)
+        v.cov.setdefault("apalache_inductive", []).append(ra)
+        if ra["status"] == "refuted":
+            raise vlib.MachineryError("OAuthFlow: IndInv is not inductive (%s)" % ra.get("detail"))
     # 1b. leads: variants for which the code-shaped model violates an invariant (OAuthFlow.PRMLeadDocs, ChallengeLeads).
     # At present: the challenge "hdr_jslo" (resource_metadata = script-capable scheme, hierarchical form, loopback authority),
     # which checkHTTPSOrLoopback lets through to the client.  ("field_js" was a lead document until /repo 7fe7bee.)
